@@ -282,6 +282,7 @@ class LSMTree(Entity):
         # stale merge (and could drop a tombstone that still shadows data the first
         # one is about to install). Requests arriving meanwhile are remembered.
         self._compacting: bool = False
+        self._compaction_epoch: int = 0  # bumped by crash(): in-flight cycles are dead
         self._compaction_requested: bool = False
 
     def downstream_entities(self) -> list[Entity]:
@@ -612,6 +613,7 @@ class LSMTree(Entity):
             self._compaction_requested = True
             return
         self._compacting = True
+        epoch = self._compaction_epoch
         try:
             yield from self._compact_once()
             while self._compaction_requested:
@@ -619,7 +621,9 @@ class LSMTree(Entity):
                 if self._compaction_strategy.should_compact(self._levels):
                     yield from self._compact_once()
         finally:
-            self._compacting = False
+            # A cycle orphaned by crash() must not clear the flag of a later one
+            if epoch == self._compaction_epoch:
+                self._compacting = False
 
     def _compact_once(self) -> Generator[float]:
         """Merge the selected SSTables into the next level."""
@@ -740,6 +744,10 @@ class LSMTree(Entity):
         self._immutable_memtables.clear()
         self._wal_unflushed.clear()
         self._memtable_wal_seqs = []
+        # A compaction suspended on its write latency died with the process
+        self._compacting = False
+        self._compaction_requested = False
+        self._compaction_epoch += 1
 
         # Crash WAL — discard unsynced entries
         wal_lost = 0
